@@ -23,6 +23,7 @@ RULE = ('one evaluation = one seeded simulated run: either 2-3 clients adding dy
         'tasks (threads of one process, or separate simulated processes that each open the directory and decorate their own copy of the function; str/bytes hash differently per process) with seeded arrival patterns (bursts, idle gaps, steady overload) on the virtual clock, whose recorded start times must '
         'satisfy starts(window) <= max(count,1) + rate*length for every window and every call must start, including the calls in which the function raises (the admission is spent, the exception comes out); non-trivial = a context switch '
         '(Averager) / at least one call was delayed (throttle); distinct = SHA-256 of the seam event log')
+RULE += ' ' + 'In a third of the multi-object Averager runs and of the multi-process throttle runs every second object is handed over by a pickle round trip instead of opening the directory.'
 ASSUMPTIONS = ['throttle is given time_func/sleep_func bound to the virtual clock (the seam the recipe offers); a virtual sleep lasts at least the requested time plus >= 1 microsecond',
                'Averager values are dyadic rationals so sums are exact in any order']
 PROBES = ('throttle_delayed', 'throttle_calls', 'throttle_raising_calls', 'throttle_across_processes', 'throttle_after_restart', 'avg_pops', 'lock_wait', 'handed_over_by_pickle')
